@@ -110,6 +110,7 @@ func verifC03ParseResp(s string) (*verifC03Resp, error) {
 
 type verifC03Block struct {
 	loc     string
+	planted []byte
 	scripts [][]*verifC03Resp // per service index
 }
 
@@ -123,6 +124,20 @@ type verifC03Stub struct {
 }
 
 func (s *verifC03Stub) Do(req *http.Request) (*http.Response, error) {
+	if req.Method == "PUT" {
+		// every service stores every block (writes are not the subject of C03; not logged)
+		if req.Body != nil {
+			ioutil.ReadAll(req.Body)
+			req.Body.Close()
+		}
+		return &http.Response{
+			StatusCode: 200,
+			Status:     "200 OK",
+			Header:     http.Header{XKeepReplicasStored: []string{"1"}},
+			Body:       ioutil.NopCloser(strings.NewReader(strings.TrimPrefix(req.URL.Path, "/") + "\n")),
+			Request:    req,
+		}, nil
+	}
 	host := req.URL.Host
 	svc, err := strconv.Atoi(strings.TrimSuffix(strings.TrimPrefix(host, "s"), ".example"))
 	if err != nil {
@@ -215,6 +230,11 @@ func verifC03Setup(retries, maxBlocks int, uuids string, blocks string, gate boo
 			return nil, nil, fmt.Errorf("bad block %q", bs)
 		}
 		blk := &verifC03Block{loc: f[0]}
+		if pl, err := hex.DecodeString(f[1]); err == nil {
+			blk.planted = pl
+		} else {
+			return nil, nil, err
+		}
 		if nsvc > 0 {
 			for _, sv := range strings.Split(f[3], ";") {
 				var rs []*verifC03Resp
@@ -330,6 +350,7 @@ func verifC03Sess(f []string) string {
 		return h, v, err == nil
 	}
 	var out []string
+	var held [][]byte
 	nreq := func() int {
 		stub.mtx.Lock()
 		defer stub.mtx.Unlock()
@@ -345,6 +366,42 @@ func verifC03Sess(f []string) string {
 				out[n-1] += fmt.Sprintf("@%d", nreq())
 			}
 			switch op[0] {
+			case 'H', 'V', 'P':
+				k, err := strconv.Atoi(op[1:])
+				if err != nil {
+					return "bad-op"
+				}
+				switch op[0] {
+				case 'H':
+					if k >= len(stub.blocks) {
+						return "bad-op"
+					}
+					data, err := kc.BlockCache.Get(kc, stub.blocks[k].loc)
+					held = append(held, data)
+					kc.BlockCache.Sweep()
+					out = append(out, fmt.Sprintf("h:%x:%s", data, verifC03Class(err)))
+				case 'V':
+					if k >= len(held) {
+						out = append(out, "v:none")
+					} else {
+						out = append(out, fmt.Sprintf("v:%x", held[k]))
+					}
+				case 'P':
+					if k >= len(stub.blocks) {
+						return "bad-op"
+					}
+					buf := append([]byte(nil), stub.blocks[k].planted...)
+					_, _, err := kc.PutB(buf)
+					// PutB has returned: the buffer is the caller's again
+					for i := range buf {
+						buf[i] = ^buf[i]
+					}
+					if err != nil {
+						out = append(out, "p:err")
+					} else {
+						out = append(out, "p:ok")
+					}
+				}
 			case 'G':
 				i := 1
 				for i < len(op) && op[i] >= '0' && op[i] <= '9' {
